@@ -286,7 +286,7 @@ def run(ctx):
         ([[0.31, 1.17], [0.05, 0.93], [0.47, 0.61], [0.2, 0.9]], [[0.2, 0.9], [0.47, 0.61], [0.31, 1.17], [0.05, 0.93]], 0.137),
     ]
     cases, lines = [], []
-    n = ctx.n(2500, 24000)
+    n = ctx.n(2000, 24000)
     for i in range(n + len(corpus)):
         if i < len(corpus):
             (F, G, sigma), kind = corpus[i], "corpus"
@@ -340,7 +340,7 @@ def run(ctx):
 def laws(ctx, nmax):
     """[T] the laws of the statement (and the definition) on the real code"""
     r = ctx.rng
-    for i in range(ctx.n(1000, 9000)):
+    for i in range(ctx.n(800, 9000)):
         F, G, kind = gen_pair(ctx, min(nmax, 10))
         C = ctx.gen.diagram(min(nmax, 10), allow_diag=True)
         if r.random() < 0.3 and F:                         # a third diagram close to the first: sharp triangle / stability cases
